@@ -890,6 +890,18 @@ class Sym:
                 r = self._promoted(cv[1], op["const"].get("promoted_of"))
                 if r is not None:
                     return r
+            if cv[0] == "named":
+                # a named constant of this crate whose body is a literal reads as that literal
+                # (`const TAGS_PREFIX: &[u8] = b"|#";`)
+                raw = getattr(self.fn.crate, "raw_by_path", None) or self.fn.crate.by_path
+                cf = raw.get(cv[1])
+                h = cf.j.get("hir") if cf is not None and str(getattr(cf, "dk", "")).startswith("Const") else None
+                while isinstance(h, dict) and h.get("k") == "Block" and not h.get("stmts") and isinstance(h.get("expr"), dict):
+                    h = h["expr"]
+                if isinstance(h, dict) and h.get("k") == "Lit":
+                    for k_ in ("bytes", "str", "char", "bool", "int", "float"):
+                        if k_ in h:
+                            return ("const", k_, tuple(h[k_]) if k_ == "bytes" else h[k_])
             return ("const",) + cv
         p = op.get("copy") or op.get("move")
         if p is None:
